@@ -36,7 +36,8 @@ BUDGET = {
 REQUIRED = dict(monitors=['restricted-equals-full', 'restricted-grid-is-subset', 'cutoff_grid=False-gives-full',
                           'binned-restricted-equals-binned-full', 'opacity-own-points-unchanged',
                           'opacity-foreign-points-between-neighbours', 'emission-restricted-equals-full',
-                          'sequence-no-stale-state', 'per-source-restricted-equals-full'],
+                          'sequence-no-stale-state', 'per-source-restricted-equals-full',
+                          'opacity-part-of-a-request-equals-the-whole-request-there'],
                 classes=['sequence:fault', 'grid:inside', 'grid:edge', 'grid:partly-outside', 'grid:observation', 'model:emission',
                          'different-native-grids', 'layout:xsec', 'layout:ktable', 'contrib:HydrogenIon',
                          'sliding-window-same-size', 'request:own-full', 'request:foreign-same-ends-and-count',
@@ -44,7 +45,8 @@ REQUIRED = dict(monitors=['restricted-equals-full', 'restricted-grid-is-subset',
                          'requested-order:ascending', 'requested-order:descending', 'requested-order:shuffled', 'requested-order:file-order-with-an-outlying-row',
                          'emission:same-size-window', 'emission:star-written-between-evaluations',
                          'request:work-array-refilled-in-place', 'request:foreign-ending-on-an-end-point',
-                         'table:empty-far-wing:exp', 'table:empty-far-wing:linear', 'request:own-sub-range-clear-of-the-empty-wing'])
+                         'table:empty-far-wing:exp', 'table:empty-far-wing:linear', 'request:own-sub-range-clear-of-the-empty-wing',
+                         'request:foreign-a-hair-off-the-native-points'])
 CUT = math.exp(-10.0)
 
 
@@ -449,6 +451,20 @@ def judge_request(ctx, op, t, p, grid, fullv, wn, layout, kind):
         ctx.check('opacity-own-points-unchanged', np.array_equal(vv, fv[idx], equal_nan=True), layout=layout, n=len(grid),
                   kind=kind, nan_in_full=int(np.sum(~np.isfinite(fv))), nan_in_request=int(np.sum(~np.isfinite(vv))))
         return
+    if len(grid) >= 3:
+        # restriction invariance for requests that are NOT native points either: the same request without its first /
+        # last point(s) returns, at the points kept, what the whole request returned
+        a_ = int(len(grid) % 2 == 0)                   # (which end points are dropped follows from the request alone)
+        b_ = len(grid) - int(len(grid) % 3 == 0)
+        if a_ == 0 and b_ == len(grid):
+            b_ -= 1
+        part = np.array(grid[a_:b_])
+        if np.any((wn >= part.min()) & (wn <= part.max())):
+            with np.errstate(all='ignore'):
+                pv = np.array(op.opacity(t, p, part)).reshape(len(part), -1)
+            ctx.close('opacity-part-of-a-request-equals-the-whole-request-there', pv, vv[a_:b_], 1e-13, atol=0.0,
+                      layout=layout, kind=kind, n_whole=len(grid), n_part=len(part), n_native=len(wn),
+                      whole=[float(grid[0]), float(grid[-1])], native=[float(wn[0]), float(wn[-1])])
     ok = True
     for j, f in enumerate(grid):
         hi_i = int(np.searchsorted(wn, f, side='left'))
@@ -486,7 +502,8 @@ def wl_opacity(ctx, rng):
         ctx.observe('table:empty-far-wing:' + make_opacity.mode)
         kinds.append('own-sub-range-clear-of-the-empty-wing')
     extra = ['own-full', 'foreign-same-ends-and-count', 'foreign-shifted-same-count', 'own-sub-range', 'foreign-random', 'own-full',
-             'foreign-ending-on-an-end-point', 'foreign-ending-on-an-end-point']
+             'foreign-ending-on-an-end-point', 'foreign-ending-on-an-end-point', 'foreign-a-hair-off-the-native-points',
+             'foreign-a-hair-off-the-native-points']
     kinds += [extra[k] for k in rng.integers(0, len(extra), int(rng.integers(1, 5)))]
     kinds = [kinds[k] for k in rng.permutation(len(kinds))]
     done = []
@@ -524,6 +541,9 @@ def wl_opacity(ctx, rng):
                 grid[0] = wn[-1]
         elif kind == 'foreign-shifted-same-count':
             grid = wn + float(rng.uniform(-0.4, 0.4)) * float(np.min(np.diff(wn)))
+        elif kind == 'foreign-a-hair-off-the-native-points':
+            # another molecule's table at the same resolution, its points a few parts per million (or per billion) off
+            grid = wn * (1.0 + float(rng.choice([-1.0, 1.0])) * float(10 ** rng.uniform(-9, -5.3)))
         else:
             kf = int(rng.integers(2, 15))
             a, b = sorted(rng.uniform(wn[0] - 0.1 * (wn[-1] - wn[0]), wn[-1] + 0.1 * (wn[-1] - wn[0]), 2))
